@@ -105,11 +105,11 @@ class LenaSequence(object):
         # static context we don't need to know any more (it is the end).
 
         for el in self._seq:
-            if hasattr(el, "_set_context") and context:
-                # skip empty context as an optimisation
-                # (el could be a big sequence).
-                # Every element with _set_context
-                # sets the empty context during its initialisation.
+            if hasattr(el, "_set_context"):
+                # An empty context is set too: the element may have
+                # received a non-empty one before (when an inner sequence
+                # of Source or FillComputeSeq was created),
+                # and a Split can delete keys.
                 try:
                     el._set_context(context)
                 except LenaKeyError as exc:
